@@ -489,9 +489,9 @@ class Pervaporation:
                     "Feed is exhausted at step %s: decrease delta_hours or number_of_steps"
                     % step
                 )
-            if not feed_temperature[step] > 0:
+            if not 0 < feed_temperature[step] < float("inf"):
                 raise ValueError(
-                    "Feed temperature is not positive at step %s: decrease delta_hours"
+                    "Feed temperature is not positive and finite at step %s: decrease delta_hours"
                     % step
                 )
 
@@ -1370,9 +1370,9 @@ class Pervaporation:
                     "Feed is exhausted at step %s: decrease delta_hours or number_of_steps"
                     % step
                 )
-            if not feed_temperature[step] > 0:
+            if not 0 < feed_temperature[step] < float("inf"):
                 raise ValueError(
-                    "Feed temperature is not positive at step %s: decrease delta_hours"
+                    "Feed temperature is not positive and finite at step %s: decrease delta_hours"
                     % step
                 )
 
